@@ -10,9 +10,9 @@ open N2V N2V.Sched
     loop is entered: the invocation ends with that diagnostic, and the state it leaves has
     exactly the late (queued/running/done/failed) builds of a fresh `Work` — none: no command
     was started, no step of the cycle ran. -/
-theorem want_error_runs_nothing (g : Graph) (a : Run.Args) (c : Choices) (m : String) (s1 : S)
+theorem want_error_runs_nothing {E : Type} (g : Graph) (a : Run.Args) (c : Choices E) (e : E) (m : String) (s1 : S)
     (h : want g (Run.fresh a) a.manifest = .err m s1) :
-    Run.build g a c = (s1, .err m) ∧ ∀ b, s1.st b ≠ .running ∧ s1.st b ≠ .done := by
+    Run.build g a c e = (s1, e, .err m) ∧ ∀ b, s1.st b ≠ .running ∧ s1.st b ≠ .done := by
   constructor
   · unfold Run.build; simp only [h]
   · intro b
@@ -42,8 +42,8 @@ theorem never_waits_for_validation (g g' : Graph) (s : S) (id : Nat)
     (structural recursion on their fuel), and with no failure on record the only exits are
     success, an error, or the explicit BUG outcome — which the correspondence run checks is never
     observed (monitor `decided`). -/
-theorem run_returns (g : Graph) (par : Nat) (c : Choices) (s : S) :
-    ∃ out, run g par c s = out := ⟨_, rfl⟩
+theorem run_returns {E : Type} (g : Graph) (par : Nat) (c : Choices E) (s : S) (e : E) :
+    ∃ out, run g par c s e = out := ⟨_, rfl⟩
 
 /-- The want phase keeps a state inherited from the manifest-regeneration phase: steps already
     settled there stay settled. -/
